@@ -262,17 +262,23 @@ CATALOGUE = [
               pred=lambda s, l, i, p: i >= 1),
     rdh_fault("FEE id reserved bit", "fee_id", lambda p: [p.f["fee_id"] | b for b in (0x40, 0x80, 0x400, 0x800, 0x8000)]),
     rdh_fault("FEE id layer 7", "fee_id", lambda p: [p.f["fee_id"] | 0x7000]),
-    rdh_fault("FEE id stave 48..63", "fee_id", lambda p: [(p.f["fee_id"] & ~0x3F) | v for v in (48, 49, 63)]),
+    rdh_fault("FEE id stave 49..63", "fee_id", lambda p: [(p.f["fee_id"] & ~0x3F) | v for v in (49, 56, 63)]),
+    rdh_fault("FEE id stave 48 (first invalid value)", "fee_id", lambda p: [(p.f["fee_id"] & ~0x3F) | 48]),
     rdh_fault("RDH priority bit", "priority_bit", [1, 0x80, 0xFF]),
     rdh_fault("RDH0 reserved", "rdh0_reserved", [1, 0x8000, 0xFFFF]),
     rdh_fault("RDH1 reserved", "rdh1_reserved", [1, 0x80000, 0xFFFFF]),
-    rdh_fault("RDH bc above 0xdeb", "bc", [0xDEC, 0xDED, 0xFFF], first_ok=True),
+    rdh_fault("RDH bc above 0xdeb", "bc", [0xDED, 0xFFF, 0xE00], first_ok=True),
+    rdh_fault("RDH bc = 0xdec (first invalid value)", "bc", [0xDEC], first_ok=True),
     rdh_fault("RDH stop bit above 1", "stop_bit", [2, 3, 0xFF], first_ok=True),
     rdh_fault("RDH trigger type 0", "trigger_type", [0], first_ok=True),
-    rdh_fault("RDH trigger type spare bit", "trigger_type", lambda p: [p.f["trigger_type"] | (1 << b) for b in range(15, 27)], first_ok=True),
+    rdh_fault("RDH trigger type spare bit", "trigger_type", lambda p: [p.f["trigger_type"] | (1 << b) for b in range(16, 26)], first_ok=True),
+    rdh_fault("RDH trigger type lowest spare bit (15)", "trigger_type", lambda p: [p.f["trigger_type"] | (1 << 15)], first_ok=True),
+    rdh_fault("RDH trigger type highest spare bit (26)", "trigger_type", lambda p: [p.f["trigger_type"] | (1 << 26)], first_ok=True),
     rdh_fault("RDH2 reserved", "rdh2_reserved", [1, 0x80], first_ok=True),
     rdh_fault("RDH3 reserved", "rdh3_reserved", [1, 0x8000], first_ok=True),
-    rdh_fault("detector field reserved bits 12..23", "detector_field", lambda p: [p.f["detector_field"] | (1 << b) for b in range(12, 24)], first_ok=True),
+    rdh_fault("detector field reserved bits 13..22", "detector_field", lambda p: [p.f["detector_field"] | (1 << b) for b in range(13, 23)], first_ok=True),
+    rdh_fault("detector field lowest reserved bit (12)", "detector_field", lambda p: [p.f["detector_field"] | (1 << 12)], first_ok=True),
+    rdh_fault("detector field highest reserved bit (23)", "detector_field", lambda p: [p.f["detector_field"] | (1 << 23)], first_ok=True),
     rdh_fault("RDH dw above 1", "dw", [2, 3, 15], first_ok=True),
     rdh_fault("RDH data format above 2", "data_format", [3, 4, 255], pred=lambda s, l, i, p: s.fmt == 2),
     rdh_fault("system id is not the ITS one", "system_id", [33, 19, 3], modes=ITS3),
